@@ -4,23 +4,24 @@
    and new sessions always start from the scheme the client was constructed with. *)
 EXTENDS SchemePush
 CONSTANTS Schemes, MaxSessions, Deviations, EmitReplay
-VARIABLES touched, cur, impl, setOnce, hist, okAll
-vars == <<touched, cur, impl, setOnce, hist, okAll>>
-Init == /\ touched \in BOOLEAN /\ cur = "D" /\ impl = "D" /\ setOnce = touched /\ hist = <<>> /\ okAll = TRUE
+VARIABLES touched, client, cur, impl, setOnce, hist, okAll
+vars == <<touched, client, cur, impl, setOnce, hist, okAll>>
+\* the client is configured with the built-in scheme D or with a scheme of its own
+Init == /\ touched \in BOOLEAN /\ client \in {"D", "S1"} /\ cur = client /\ impl = client /\ setOnce = touched /\ hist = <<>> /\ okAll = TRUE
 Session(S) ==
     /\ Len(hist) < MaxSessions
     /\ LET announcedRef == cur
-           announcedImpl == IF "OncePerProcess" \in Deviations THEN "D" ELSE impl
+           announcedImpl == IF "OncePerProcess" \in Deviations THEN client ELSE impl
            adoptImpl == Pushes(announcedImpl, S) /\ Parseable(S) /\ ("OncePerProcess" \in Deviations => ~setOnce)
        IN /\ okAll' = (okAll /\ announcedImpl = announcedRef)
           /\ cur' = AfterSession(cur, S)
           /\ impl' = IF adoptImpl THEN S ELSE impl
           /\ setOnce' = (setOnce \/ adoptImpl)
-    /\ hist' = Append(hist, S) /\ UNCHANGED touched
+    /\ hist' = Append(hist, S) /\ UNCHANGED <<touched, client>>
 Next == \E S \in Schemes : Session(S)
 Spec == Init /\ [][Next]_vars
 \* a session opened after an adopted push announces the pushed digest (so it is not pushed again), for every push
 LaterSessionsAnnounceIt == okAll
 Done == Len(hist) = MaxSessions
-Replay == (EmitReplay /\ Done) => PrintT(<<"REPLAY", ToJson([touch |-> touched, servers |-> hist])>>)
+Replay == (EmitReplay /\ Done) => PrintT(<<"REPLAY", ToJson([touch |-> touched, client |-> client, servers |-> hist])>>)
 =============================================================================
